@@ -233,6 +233,9 @@ func genResult(rt *rapid.T, l string, faulty bool) sqlfake.Result {
 	case 2:
 		r.Lines = []string{`not json {`, `{"level":"info","v":2}`, `[1,2]`, `"str"`, `{"nested":{"deep":{"x":[1,{"y":2}]}}}`, ``}
 	}
+	if rapid.IntRange(0, 3).Draw(rt, l+".vals") == 0 {
+		r.Values = []float64{1e21, 1e-7, 0.1, 100, 3, -0.5, 1e15 + 0.5, 123456789.125, 2.5e-300}
+	}
 	if faulty {
 		n := r.Series*r.RowsPer + 1
 		switch rapid.IntRange(0, 7).Draw(rt, l+".fault") {
